@@ -50,12 +50,13 @@ type rlogH struct {
 }
 
 type nodeH struct {
-	node    *consensus.RaftNode
-	fs      *faultyStore
-	ch      chan *protocol.Snapshot
-	emitted int64
-	mu      sync.Mutex
-	pending *pendingAdd
+	node     *consensus.RaftNode
+	fs       *faultyStore
+	ch       chan *protocol.Snapshot
+	emitted  int64
+	mu       sync.Mutex
+	pending  *pendingAdd
+	pendingQ chan []xp.Answer
 }
 
 type pendingAdd struct {
@@ -575,6 +576,14 @@ func (w *world) nodeOp(r *xp.Req, resp *xp.Resp) {
 	case "node-add", "node-add-one":
 		var snaps []xp.Snap
 		var err error
+		// the HTTP server recovers panics of its handler goroutines; do the
+		// same here and report them, so that a panic in the proposer path is
+		// an observation rather than the end of the child
+		defer func() {
+			if p := recover(); p != nil {
+				resp.Err, resp.ErrKind = fmt.Sprintf("panic: %v", p), "panic"
+			}
+		}()
 		if r.Op == "node-add-one" {
 			s, e := n.Add(r.Events[0])
 			err = e
@@ -630,6 +639,24 @@ func (w *world) nodeOp(r *xp.Req, resp *xp.Resp) {
 		}
 	case "node-query":
 		resp.Answers = runQueries(n, r.Queries, time.Duration(r.N)*time.Millisecond)
+	case "node-query-async":
+		ch := make(chan []xp.Answer, 1)
+		h.mu.Lock()
+		h.pendingQ = ch
+		h.mu.Unlock()
+		qs, to := r.Queries, time.Duration(r.N)*time.Millisecond
+		go func() { ch <- runQueries(n, qs, to) }()
+	case "node-query-await":
+		h.mu.Lock()
+		ch := h.pendingQ
+		h.mu.Unlock()
+		if ch == nil {
+			resp.Err = "no queries pending"
+			return
+		}
+		resp.Answers = <-ch
+	case "node-stress":
+		resp.Emitted, resp.Bad = stress(n, r)
 	case "node-state":
 		st := &xp.State{}
 		st.Index, st.StateVersion, st.BalloonVersion = n.VerifState()
@@ -755,4 +782,78 @@ func runQueries(n *consensus.RaftNode, qs []xp.Query, timeout time.Duration) []x
 		}
 	}
 	return out
+}
+
+// stress: concurrent adders and queriers on the public API (race tier of C10).
+// r.A adders each doing r.B adds (bulk size r.C), r.N queriers running until
+// the adders finish. Returns (#operations, #panics).
+func stress(n *consensus.RaftNode, r *xp.Req) (ops, panics int) {
+	var wg, qwg sync.WaitGroup
+	var stop int32
+	var nops, npanics int64
+	var mu sync.Mutex
+	var events [][]byte
+	guard := func(f func()) {
+		defer func() {
+			if p := recover(); p != nil {
+				atomic.AddInt64(&npanics, 1)
+			}
+		}()
+		f()
+		atomic.AddInt64(&nops, 1)
+	}
+	for a := 0; a < int(r.A); a++ {
+		wg.Add(1)
+		go func(a int) {
+			defer wg.Done()
+			for i := 0; i < int(r.B); i++ {
+				var bulk [][]byte
+				for j := 0; j < int(r.C); j++ {
+					bulk = append(bulk, []byte(fmt.Sprintf("s-%d-%d-%d", a, i, j)))
+				}
+				guard(func() {
+					if _, err := n.AddBulk(bulk); err == nil {
+						mu.Lock()
+						events = append(events, bulk...)
+						mu.Unlock()
+					}
+				})
+			}
+		}(a)
+	}
+	for q := 0; q < int(r.N); q++ {
+		qwg.Add(1)
+		go func(q int) {
+			defer qwg.Done()
+			for i := 0; atomic.LoadInt32(&stop) == 0; i++ {
+				mu.Lock()
+				var ev []byte
+				k := len(events)
+				if k > 0 {
+					ev = events[(i*7+q)%k]
+				}
+				mu.Unlock()
+				if ev == nil {
+					time.Sleep(time.Millisecond)
+					continue
+				}
+				guard(func() {
+					switch i % 3 {
+					case 0:
+						n.QueryMembership(ev)
+					case 1:
+						n.QueryMembershipConsistency(ev, uint64(k/2))
+					default:
+						if k > 2 {
+							n.QueryConsistency(uint64(i%(k/2)), uint64(k/2))
+						}
+					}
+				})
+			}
+		}(q)
+	}
+	wg.Wait()
+	atomic.StoreInt32(&stop, 1)
+	qwg.Wait()
+	return int(nops), int(npanics)
 }
